@@ -34,6 +34,7 @@ func ruleNum(c *Ctx) {
 		lb.textProvenance(l)
 	}
 	b.floatWidth(l)
+	b.numberIntoString(l)
 	// (ii) convertNumber
 	if cn := b.method(b.Codec, "decodeState", "convertNumber"); cn == nil {
 		l.add("R-NUM", "codec", "anchor convertNumber", "", Undecided, "(*decodeState).convertNumber not found", false)
